@@ -219,7 +219,10 @@ Fixpoint glencoe_parse_ctc (fuel : nat) (finfo_ : aval) (info : aval) : result n
 Definition glencoe_read (doc : aval) : result pfm :=
   match jget "features" doc with Err e => Err e | Ok fv =>
   match jget "tree" doc with Err e => Err e | Ok tv =>
-  match jget "constraints" doc with Err e => Err e | Ok cv =>
+  match (match doc with
+         | VMap kv => match assoc "constraints" kv with Some x => Ok x | None => Ok (VMap []) end
+         | _ => Err AttributeError       (* data.get on a non-dict *)
+         end) with Err e => Err e | Ok cv =>
   match glencoe_parse_tree (aval_depth tv) fv [] PNone tv with Err e => Err e | Ok proot_ =>
   match cv with
   | VMap ckv =>
